@@ -267,6 +267,27 @@ func c01One(r *core.Run, idx int64, note string, mk func() (val.LibCol, error), 
 	} else if !strings.Contains(err.Error(), "unordered") && !strings.Contains(err.Error(), "no row accessor") {
 		r.Violation("row-accessor:"+site, err.Error(), cs)
 	}
+	// result targets stay bound for every block of a response: the same block decoded once more
+	// into the same targets must give the same values again
+	if rows > 0 {
+		if msg := core.Recover(func() { blk, derr, exact = libDecode(canon, rev, res) }); msg != "" {
+			r.Violation("decode-panic:following-block:"+site, msg, cs)
+			return
+		}
+		if derr != nil || !exact {
+			r.Violation("decode-error:following-block:"+site, fmt.Sprintf("a second block into the same targets: err=%v, consumed exactly=%v", derr, exact), cs)
+			return
+		}
+		var again []ref.Val
+		if msg := core.Recover(func() { again = readAll(dst) }); msg != "" {
+			r.Violation("row-panic:following-block:"+site, msg, cs)
+			return
+		}
+		if d := diffVals(vals, again); d != "" {
+			r.Violation("roundtrip:following-block:"+site, "a second block decoded into the same targets differs: "+d, cs)
+			return
+		}
+	}
 	// automatic inference
 	var auto proto.ColAuto
 	if core.Recover(func() { err = auto.Infer(proto.ColumnType(rb.Cols[0].Type)) }) == "" && err == nil {
@@ -295,6 +316,21 @@ func c01One(r *core.Run, idx int64, note string, mk func() (val.LibCol, error), 
 				}
 			} else if d := diffVals(vals, av); d != "" {
 				r.Violation("auto-roundtrip:"+site, "typed and inferred decoding disagree with the appended values: "+d, cs)
+			}
+		}
+		if rows > 0 {
+			if msg := core.Recover(func() { blk, derr, exact = libDecode(canon, rev, ares.Auto()) }); msg != "" {
+				r.Violation("auto-decode-panic:following-block:"+site, msg, cs)
+				return
+			}
+			if derr != nil || !exact {
+				r.Violation("auto-decode-error:following-block:"+site, fmt.Sprintf("a second block into the inferred targets: err=%v, consumed exactly=%v", derr, exact), cs)
+				return
+			}
+			if av, err := val.ReadCol(ares[0].Data, t); err == nil {
+				if d := diffVals(vals, av); d != "" {
+					r.Violation("auto-roundtrip:following-block:"+site, "a second block decoded into the inferred targets differs: "+d, cs)
+				}
 			}
 		}
 		if at := ares[0].Data.Type(); at.Conflicts(proto.ColumnType(rb.Cols[0].Type)) {
